@@ -164,23 +164,20 @@ def rule_hook_shape(check):
     check.floor(R, "CallExpr literals in get_dd_call_expr", len(calls), 1)
     for n in calls:
         flds = {x["name"]: x["e"] for x in n["fields"]}
-        al = hir.local_of(flds["args"])
-        ok = False
-        detail = "?"
-        if al:
-            b = gc.bindings()[al[0]]
-            init = b["origin"][1]
-            first = [x for x in hir.walk(init) if x.get("k") == "Struct" and (x["res"].get("path") or "").endswith("ExprOrSpread")]
-            ok1 = len(first) == 1
-            if ok1:
+        from . import seqform as SQ
+
+        items = SQ.seq_of(gc, flds["args"], upto=n["id"])
+        ok1 = ok2 = False
+        if len(items) == 2 and items[0][0] == "one" and items[1][0] == "all":
+            first = [x for x in hir.walk(items[0][1]) if x.get("k") == "Struct" and (x["res"].get("path") or "").endswith("ExprOrSpread")]
+            if len(first) == 1:
                 ff = {x["name"]: hir.peel(x["e"]) for x in first[0]["fields"]}
                 ok1 = (ff["spread"].get("res", {}).get("ctor_path") or "").split("::")[-1] == "None" and all(r[0] == "param" and r[2] == 0 for r, p in pv.origins(gc, ff["expr"]))
-            apps = [x for x in hir.calls_in(gc.body) if (hir.callee_name(x) or x.get("method")) in ("append", "extend", "extend_from_slice") and hir.local_of(hir.call_args(x)[0]) == al]
-            ok2 = len(apps) == 1 and all(r[0] == "param" and r[2] == 1 for r, p in pv.origins(gc, hir.call_args(apps[0])[1])) and apps[0]["id"] > first[0]["id"] if ok1 and apps else False
-            others = [x for x in hir.calls_in(gc.body) if hir.call_args(x) and hir.local_of(hir.call_args(x)[0]) == al and (hir.callee_name(x) or x.get("method")) in ("push", "insert", "reverse", "sort", "swap", "remove", "rotate_left", "rotate_right", "retain", "dedup", "truncate")]
-            ok = ok1 and ok2 and not others
-            detail = "first=%s append=%s other-mutations=%d" % (ok1, ok2, len(others))
-        check.expect(ok, R, R + "/args", hir.loc(n), "args = [expr] ++ arguments", "hook call arguments are not [wrapped expression] ++ arguments (%s)" % detail)
+            l_ = hir.local_of(items[1][2])
+            ok2 = bool(l_) and gc.bindings()[l_[0]]["origin"][:2] == ("param", 1)
+        ok = ok1 and ok2
+        detail = SQ.show(items)
+        check.expect(ok, R, R + "/args", hir.loc(n), "args = [expr] ++ arguments", "hook call arguments are not [wrapped expression] ++ arguments (they are %s)" % detail)
         co = hir.peel(flds["callee"])
         ok = hir.is_call(co) and hir.callee_name(co) == "dd_global_method_invocation"
         check.expect(ok, R, R + "/callee", hir.loc(n), "callee = _ddiast.<name>", "hook callee is not built by dd_global_method_invocation")
@@ -188,23 +185,23 @@ def rule_hook_shape(check):
     cs = [x for x in hir.calls_in(gp.body, name="get_dd_call_expr")]
     ok = len(cs) == 1 and [sorted({r[2] for r, p in pv.origins(gp, a) if r[0] == "param"}) for a in hir.call_args(cs[0])] == [[0], [1], [3], [4]]
     check.expect(ok, R, R + "/forward", hir.loc(gp.rec), "get_dd_paren_expr forwards (expr, arguments, method_name, span)", "get_dd_paren_expr does not forward its parameters unchanged")
-    pushes = [x for x in hir.calls_in(gp.body, name="push")]
+    from . import seqform as SQ
+
     seqs = [n for n in hir.walk(gp.body) if n.get("k") == "Struct" and (n["res"].get("path") or "").endswith("SeqExpr")]
-    ok = len(pushes) == 1 and len(seqs) == 1 and pushes[0]["id"] < seqs[0]["id"] and hir.local_of(hir.call_args(pushes[0])[1]) is not None
-    if ok:
-        l = hir.local_of(hir.call_args(pushes[0])[1])
-        init = gp.bindings()[l[0]]["origin"][1]
-        ok = init is not None and hir.peel(init) is cs[0]
-    check.expect(ok, R, R + "/call-last", hir.loc(gp.rec), "the hook call is pushed after all assignations", "the hook call is not the last element of the sequence")
+    check.floor(R, "SeqExpr literals in get_dd_paren_expr", len(seqs), 1)
     for n in seqs:
         ex = [x["e"] for x in n["fields"] if x["name"] == "exprs"][0]
-        chain = []
-        x = hir.peel(ex)
-        while x.get("k") == "MethodCall":
-            chain.append(x["method"])
-            x = hir.peel(x["recv"])
-        ok = chain == ["collect", "map", "iter"] and hir.local_of(x) and gp.bindings()[hir.local_of(x)[0]]["origin"][:2] == ("param", 2)
-        check.expect(ok, R, R + "/forward-iteration", hir.loc(n), "sequence = assignations in insertion order", "the sequence is built by %s over %s" % (chain, hir.describe(x)))
+        items = SQ.seq_of(gp, ex, upto=n["id"])
+        shape = [it[0] for it in items]
+        pvo = Prov(prog, opaque={"get_dd_call_expr"})
+        last_is_call = bool(items) and items[-1][0] == "one" and any(r[0] == "call" and r[1].split("::")[-1] == "get_dd_call_expr" for r, p in pvo.origins(gp, items[-1][1]))
+        check.expect(last_is_call and "one" not in shape[:-1], R, R + "/call-last", hir.loc(n), "the hook call is the last element of the sequence", "the hook call is not the last element of the sequence (the sequence is %s)" % SQ.show(items))
+        def _is_param(fn_, node_, idx_):
+            l_ = hir.local_of(node_)
+            return bool(l_) and fn_.bindings()[l_[0]]["origin"][:2] == ("param", idx_)
+
+        fwd = shape[:-1] == ["all"] and _is_param(gp, items[0][2], 2)
+        check.expect(fwd, R, R + "/forward-iteration", hir.loc(n), "sequence = assignations in insertion order, then the hook call", "the sequence is %s, not the assignations in insertion order followed by the hook call" % SQ.show(items))
     # direct call is returned when there are no assignations
     rets = [hir.peel(r) for r in return_exprs(gp.body)]
     bare = [r for r in rets if hir.local_of(r)]
